@@ -3087,6 +3087,8 @@ void Interpreter::call_default_constructor(
     if (struct_var) {
         // self変数を作成（構造体変数の完全なコピー）
         Variable self_var = *struct_var;
+        // コンストラクタは const オブジェクト (const P a;) も初期化できる
+        self_var.is_const = false;
         current_scope().variables["self"] = self_var;
 
         if (debug_mode) {
@@ -3349,6 +3351,8 @@ void Interpreter::call_constructor(const std::string &var_name,
 
     // selfを現在の変数のコピーとして設定
     Variable self_var = *struct_var;
+    // コンストラクタは const オブジェクト (const P a(1, 2);) も初期化できる
+    self_var.is_const = false;
     current_scope().variables["self"] = self_var;
 
     // パラメータを設定
@@ -3525,6 +3529,8 @@ void Interpreter::call_copy_constructor(const std::string &var_name,
 
     // selfを現在の変数のコピーとして設定
     Variable self_var = *dest_var;
+    // コンストラクタは const オブジェクト (const P a = b;) も初期化できる
+    self_var.is_const = false;
     current_scope().variables["self"] = self_var;
 
     // パラメータ（ソース変数への参照）を設定
@@ -3726,6 +3732,8 @@ void Interpreter::call_destructor(const std::string &var_name,
         self_var.is_struct = true;
         // v0.13.0: selfのデストラクタは呼ばない（既に呼び出し中）
         self_var.destructor_called = true;
+        // デストラクタは const オブジェクトの後始末でも self に書き込める
+        self_var.is_const = false;
         // v0.13.1: まずstruct_members_refをnullにしてコピーを格納
         self_var.struct_members_ref = nullptr;
         current_scope().variables["self"] = self_var;
